@@ -1040,8 +1040,17 @@ fn run(op: &Value) -> Value {
             let ej = show(conjure_serde::json::client_from_str::<verif_types::exhaustive_types::p::TestEnum>(&doc));
             let dp = show(<verif_types::types::p::TestEnum as FromPlain>::from_plain(&text));
             let round = verif_types::types::p::TestEnum::from_str(&text).ok().map(|v| v.as_str() == text && v.to_plain() == text && conjure_serde::json::to_string(&v).unwrap() == doc);
+            // the same JSON string delivered in other ways: from a reader (transient strings), with an escape in it (owned string),
+            // through Smile, and through an Any (owned string event)
+            let escaped = if text.is_empty() { doc.clone() } else { let c = text.chars().next().unwrap(); format!("\"\\u{:04x}{}", c as u32, &doc[1 + c.len_utf8()..]) };
+            let dr = show(conjure_serde::json::client_from_reader::<_, verif_types::types::p::TestEnum>(doc.as_bytes()));
+            let dsr = show(conjure_serde::json::server_from_reader::<_, verif_types::types::p::TestEnum>(doc.as_bytes()));
+            let de = if (text.chars().next().map(|c| (c as u32) < 0x10000).unwrap_or(true)) { show(conjure_serde::json::client_from_str::<verif_types::types::p::TestEnum>(&escaped)) } else { dj.clone() };
+            let da = show(conjure_serde::json::client_from_str::<conjure_object::Any>(&doc).map_err(|e| e.to_string()).and_then(|a| a.deserialize_into::<verif_types::types::p::TestEnum>().map_err(|e| e.to_string())));
+            let dsm = show(conjure_serde::smile::to_vec(&text).map_err(|e| e.to_string()).and_then(|b| conjure_serde::smile::client_from_slice::<verif_types::types::p::TestEnum>(&b).map_err(|e| e.to_string())));
             json!({"default": d, "exhaustive": e, "default_json": dj, "exhaustive_json": ej, "default_plain": dp, "roundtrip": round,
-                   "consistent": d == dj && e == ej && d == dp && round != Some(false)})
+                   "json_reader": dr, "json_server_reader": dsr, "json_escaped": de, "via_any": da, "smile": dsm,
+                   "consistent": d == dj && e == ej && d == dp && round != Some(false) && d == dr && d == dsr && d == de && d == da && d == dsm})
         }
         "gen_union" | "gen_object" => {
             let doc = op["doc"].as_str().unwrap();
